@@ -1,5 +1,6 @@
 import Gaftools.Props.C07
 import Gaftools.Props.C06g
+import Gaftools.Proofs.OrderFilesLemmas2
 /-!
 # C07 (continued) — the files of the model of `run_order_gfa`
 
@@ -12,13 +13,67 @@ increasing (BO, NO) order; exactly the declared links inside the component, each
 The correspondence compares these model files with the files the real tool writes (S lines in order, L lines as a multiset).
 -/
 namespace Gaftools.C07
-open Gaftools.Gfa Gaftools.Algo Gaftools.Order Gaftools.Spec.Order
+open Gaftools.Gfa Gaftools.Algo Gaftools.Order Gaftools.Spec.Order Gaftools.Spec.Graph
+open Gaftools.Proofs.OrderRun Gaftools.Proofs.OrderFiles
 
 theorem orderFiles_spec (t : GfaFile) (hw : WFGfa t) (htab : ∀ s ∈ t.segs, '\t' ∉ s.id.toList)
     (hseq : ∀ s ∈ t.segs, s.seq ≠ "") (hnames : ∀ s ∈ t.segs, (s.tags.map (·.name)).Nodup)
     (order : List String) (lm : Bool) (fs : List (String × GfaFile)) (h : orderFiles t order lm = .ok fs) :
     ∀ p ∈ fs, ∃ w : Written, w.name = p.1 ∧ p.2 = orderFile (readGraph t lm) w ∧
       specWritten t (compOfName t lm p.1) (fun v => (w.tags.find? (·.1 == v)).map (·.2)) (!lm) p.2 = true := by
-  sorry
+  intro p hp
+  have hids := hw.ids
+  unfold orderFiles at h
+  cases hrun : orderRun t order lm with
+  | error e => rw [hrun] at h; cases h
+  | ok r =>
+    obtain ⟨ws, next⟩ := r
+    rw [hrun] at h
+    simp only at h
+    injection h with h
+    subst h
+    rw [List.mem_map] at hp
+    obtain ⟨w, hwm, rfl⟩ := hp
+    refine ⟨w, rfl, rfl, ?_⟩
+    simp only
+    -- what the loop wrote
+    have hgo : Gaftools.C18.go (fun c => decompose (Graph.nbFun (readGraph t lm)) (compOfName t lm c) (soOf t) (snOf t))
+        ([], 0) order = .ok (ws, next) := hrun
+    have hws := Gaftools.C18.go_written _ order _ _ hgo
+    simp only [List.nil_append] at hws
+    rw [hws] at hwm
+    obtain ⟨l, lo, _, hdec, htags, _⟩ := outList_mem _ order 0 (Int.le_refl 0) w hwm
+    have hU := Gaftools.C15.readGraph_undirected t hids lm
+    rcases compOfName_cases t lm w.name with hnil | hmem
+    · exfalso
+      rw [hnil] at hdec
+      exact decompose_nil' _ hU.symm _ _ _ hdec
+    · have hidsEq : Graph.ids (readGraph t lm) = t.segs.map (·.id) := Gaftools.Proofs.Write.ids_readGraph t lm hids
+      have hnd : (Graph.ids (readGraph t lm)).Nodup := by rw [hidsEq]; exact hids
+      have hpart := Gaftools.C15.components_partition _ _ hU hnd
+      obtain ⟨hne, hcnd, hsub, hcls⟩ := hpart.1 _ hmem
+      generalize compOfName t lm w.name = comp at hdec hne hcnd hsub hcls ⊢
+      have hclosed := class_closed (Graph.nbFun (readGraph t lm)) comp hcls
+      have hagree := restrict_agree (Graph.nbFun (readGraph t lm)) comp
+      have hu' := restrict_undirected _ _ comp hU hclosed
+      have hconn := restrict_connected _ _ comp hU hcls
+      have hsub' : ∀ v ∈ comp, v ∈ t.segs.map (·.id) := by
+        intro v hv
+        rw [← hidsEq]
+        exact hsub v hv
+      have htab' : ∀ v ∈ comp, '\t' ∉ v.toList := by
+        intro v hv
+        have := hsub' v hv
+        rw [List.mem_map] at this
+        obtain ⟨s, hs, rfl⟩ := this
+        exact htab s hs
+      have hdec' : decompose (restrict (Graph.nbFun (readGraph t lm)) comp) comp (soOf t) (snOf t) = .ok l := by
+        rw [Gaftools.C06.decompose_congr _ _ comp _ _ hne hclosed hagree]
+        exact hdec
+      have hgood := goodOrder_of_decompose _ comp (soOf t) (snOf t) l hu' hcnd hconn htab' hne hdec'
+      have hgt : GoodTags t comp w.tags := by
+        rw [htags]
+        exact goodTags_of_goodOrder hgood hcnd hsub' lo
+      exact specWritten_of_goodTags hw lm hseq hnames w hgt
 
 end Gaftools.C07
